@@ -220,6 +220,24 @@ fn sleeper(id: int) {
 			m.finals = append(m.finals, f)
 		}
 		tail()
+	case 8:
+		// arguments taken from object members and list elements that the parent overwrites right after the spawn
+		b.WriteString(`fn mw(id: int, a: int, s: str, e: int) {
+    let c = 0;
+    while c < 40 { c = c + 1; }
+    println("mw", id, a, s, e);
+    println("mw", id, "done");
+}
+`)
+		b.WriteString("fn main() {\n    let o = new { a: 0, s: \"s\" };\n    let l = [0, 0, 0];\n")
+		for i := 0; i < n; i++ {
+			fmt.Fprintf(&b, "    o.a = %d; o.s = \"s%d\"; l[%d] = %d;\n    spawn mw(%d, o.a, o.s, l[%d]);\n    o.a = -1; o.s = \"overwritten\"; l[%d] = -7;\n", i+10, i, i%3, i+20, i, i%3, i%3)
+			add(fmt.Sprintf("mw %d %d s%d %d", i, i+10, i, i+20))
+			f := fmt.Sprintf("mw %d done", i)
+			add(f)
+			m.finals = append(m.finals, f)
+		}
+		tail()
 	case 7:
 		// handshake through globals: every core waits for values written by another one
 		rounds := 3 + iters*2
@@ -437,7 +455,7 @@ func planC17(t *testing.T, tier string, seed uint64) ([]RunSpec, error) {
 		sweepCap = 0
 	}
 	idx := 0
-	for shape := 0; shape <= 7; shape++ {
+	for shape := 0; shape <= 8; shape++ {
 		for _, n := range ns {
 			for late := 0; late < 3; late++ {
 				base := RunSpec{Property: "C17", Workload: fmt.Sprintf("c17/shape%d", shape), Params: map[string]int{"shape": shape, "n": n, "iters": 1 + (n+late)%3, "main_late": late}}
